@@ -25,7 +25,9 @@ ASSUMPTIONS = ["reference version order: dot-separated integers, trailing zeros 
 SHARDS = {"quick": 1, "thorough": 16}
 
 VERSIONS = ["1", "1.0", "1.9", "1.10", "1.10.0", "2", "0.9.9", "10.0", "1.2.3.4", "1.2.3.4.5.6", "1.2.3.4.5.10", "1.100000000000000000000", "1.99999999999999999999",
-            "0.0.0.0.0.1", "2024.10.3"]
+            "0.0.0.0.0.1", "2024.10.3",
+            # pre-releases, development builds and post-releases take their place in the version order too
+            "2.0rc1", "1.0.dev3", "3.0a2", "2.9.post1", "1.10b2", "2.0rc1.post1", "10.0.dev1"]
 NAMES = ["alpha", "beta", "gamma", "delta"]
 CASE_NAMES = ["alpha", "Alpha", "ALPHA", "stra\u00dfe", "strasse", "STRASSE", "made-as-alpha"]   # distinct names: nothing folds them together
 
@@ -143,6 +145,28 @@ def place(shape, deps):
         k3 = len(d) // 3
         comp = jsx_mod.jsx_tag_create("Deps.Holder")(*d[:k3], ht.div("in a tag", *d[k3:2 * k3]), jsx_mod.jsx_tag_create("Inner")(*d[2 * k3:]))
         return ht.div("lead", comp).tagify()
+    if shape == "displayed_in_blocks":
+        # dependencies displayed inside `with tag:` blocks (two levels), between displayed text
+        import sys as _sys
+
+        outer = ht.div()
+        hook = _sys.displayhook
+        _sys.displayhook = lambda v: None
+        try:
+            with outer:
+                _sys.displayhook("lead")
+                for i, dep in enumerate(d):
+                    if i % 3 == 2:
+                        inner = ht.span()
+                        with inner:
+                            _sys.displayhook(dep)
+                            _sys.displayhook("t")
+                        # (on leaving its block the inner tag is handed to the enclosing block's hook: it is a child of `outer` now)
+                    else:
+                        _sys.displayhook(dep)
+        finally:
+            _sys.displayhook = hook
+        return outer
     if shape == "appended":
         t = ht.div()
         for dep in d:
@@ -154,7 +178,7 @@ def place(shape, deps):
     raise ValueError(shape)
 
 
-SHAPES = ["flat_list", "deep_chain", "jsx_component", "scattered", "nested_containers", "tag_root", "appended", "random_tree", "assigned", "tag_subclasses"]
+SHAPES = ["flat_list", "deep_chain", "jsx_component", "displayed_in_blocks", "scattered", "nested_containers", "tag_root", "appended", "random_tree", "assigned", "tag_subclasses"]
 
 
 def same_ids(a, b):
@@ -450,7 +474,7 @@ def _run(ctx):
             idx += 1
             if not ctx.mine(idx):
                 continue
-            check_seq(ctx, list(perm), shapes=["flat_list", "scattered", "tag_subclasses"] if not ctx.thorough else SHAPES)
+            check_seq(ctx, list(perm), shapes=["flat_list", "scattered", "tag_subclasses", "displayed_in_blocks"] if not ctx.thorough else SHAPES)
             ctx.case(perm, nontrivial=nontrivial(perm))
             ctx.count("permutations")
     ctx.exhaustive["all_orders_of_listed_multisets"] = True
